@@ -26,10 +26,13 @@ def lines(path):
     return out
 for p in props:
     verify = {os.path.basename(j["mutation"]): j for j in lines(os.path.join(root, f"{p}.verify.log"))}
-    tries = {}
+    tries, first = {}, {}
     for log in (f"{p}.try.log", f"{p}.retry.log", f"{p}.retry2.log"):
         for j in lines(os.path.join(root, log)):
-            tries.setdefault(os.path.basename(j["mutation"]), {}).update(j["results"])
+            m_ = os.path.basename(j["mutation"])
+            if log.endswith(".try.log"):
+                first.setdefault(m_, {}).update(j["results"])
+            tries.setdefault(m_, {}).update(j["results"])
     sd = os.path.join(root, p, "seed_out")
     for m in sorted(os.listdir(sd)):
         src = os.path.join(sd, m)
@@ -59,6 +62,7 @@ for p in props:
                                        "again, run the whole suite"),
                     checks_run={k: dict(exit=r["exit"], detail=r.get("detail", [])[:3]) for k, r in res.items()},
                     caught_by=caught,
+                    missed_at_first=sorted(k for k, r in first.get(m, {}).items() if r.get("exit") != 1 and res.get(k, {}).get("exit") == 1),
                     how_checks_were_run="tools/try_seed.py: patch applied in the scratch worktree, bin/check <id> --tier quick with "
                                         "VERIF_REPO=<worktree> (private harness copy), undone afterwards")
         json.dump(meta, open(os.path.join(dst, "meta.json"), "w"), indent=1)
